@@ -444,6 +444,11 @@ func (r *Run) unop(fr *frame, instr *ssa.UnOp, x value) value {
 			if s.K == types.Float64 {
 				return symOrConc(r.ts.FNeg(s.T), s.K)
 			}
+			if s.K == types.Int64 {
+				if _, _, ok := r.scaledParts(s.T); ok {
+					return symOrConc(r.scaledAddSub(OpSub, r.ts.Const(SBV64, 0), s.T), s.K)
+				}
+			}
 			return symOrConc(r.ts.Un(OpNeg, s.T), s.K)
 		case token.NOT:
 			return r.boolVal(r.ts.Not(s.T))
